@@ -3,7 +3,7 @@
 (*  edges (cfg with VIEW): one shortest history per (mechanism state, call)    *)
 (*  sim   (tlc -simulate): random walks of length Depth                        *)
 EXTENDS Blocklist, TLC, Json, IOUtils
-VARIABLE ops
+VARIABLES ops, pre
 
 MCPeers == {1, 2}
 MCDurs  == {0, 1, 3, 10}
@@ -18,14 +18,18 @@ Op(r) == CASE r.op = "exists" -> [op |-> "exists", p |-> r.p]
            [] r.op = "peers"  -> [op |-> "peers"]
            [] OTHER           -> r
 
-GInit == Init /\ ops = <<>>
+\* `pre` is the mechanism state the last call started from
+GInit == Init /\ ops = <<>> /\ pre = <<>>
 GNext == /\ Len(ops) < Depth
          /\ Next
          /\ ops' = Append(ops, Op(res'))
-GSpec == GInit /\ [][GNext]_<<vars, ops>>
+         /\ pre' = <<now, ent>>
+GSpec == GInit /\ [][GNext]_<<vars, ops, pre>>
 
-\* mechanism state + last call: the request history is a function of the path and left out
-EdgeView == <<now, ent, res>>
+\* source state + call (+ target state): one history per (source state, call) edge -- a cover per
+\* (target state, call) would keep `remove` of an absent entry and drop `remove` of a present one.
+\* The request history is a function of the path and left out.
+EdgeView == <<now, ent, pre, res>>
 
 EmitAll  == ops # <<>> => PrintT(<<"SCN", ToJson(ops)>>)
 EmitFull == Len(ops) = Depth => PrintT(<<"SCN", ToJson(ops)>>)
